@@ -697,7 +697,7 @@ impl<'a, W: Write> DocumentPrinter<'a, W> {
         self.newline()?;
         self.inc();
 
-        for arg in &expr.arguments {
+        for (i, arg) in expr.arguments.iter().enumerate() {
             self.indent()?;
 
             match arg {
@@ -719,7 +719,14 @@ impl<'a, W: Write> DocumentPrinter<'a, W> {
                     self.expr(&arg.expr)?;
                     write!(self.writer, ",")?;
                 }
-                InstantiationArgument::Fill(_) => write!(self.writer, "...")?,
+                InstantiationArgument::Fill(_) => {
+                    write!(self.writer, "...")?;
+                    // A fill that is not the last argument needs its separator,
+                    // otherwise it re-parses as a spread of the next argument.
+                    if i + 1 < expr.arguments.len() {
+                        write!(self.writer, ",")?;
+                    }
+                }
             }
 
             self.newline()?;
